@@ -24,6 +24,11 @@ theorem leptond_header_values : leptondHeaderValues =
     "headers.Brand:lepton3.Brand;headers.FPS:camera.FPS();headers.Firmware:firmware;headers.FrameSize:lepton3.BytesPerFrame;headers.Model:model;headers.Serial:serial;headers.XResolution:camera.ResX();headers.YResolution:camera.ResY()" :=
   rfl
 
+/-- C13: Lepton cameras are parsed by the lepton3 library's parser, Bosons by `convertRawBosonFrame`
+(the two parsers `TR.Parse` models) -/
+theorem frame_parser_selection : frameParserMap =
+    "lepton3.Model,lepton3.Model35=>return lepton3.ParseRawFrame;\"boson\"=>return convertRawBosonFrame" := rfl
+
 /-- C18: 256 buffers circulate between two channels of that capacity; the reader takes a spent buffer,
 fills it, hands it to the writer, and closes the queue on a read error; the writer writes a frame
 before returning its buffer and closes the file when the queue is closed -/
